@@ -216,6 +216,10 @@ def run_tableaux(ctx, case):
 def cases_tableaux(tier):
     top = 8 if tier == 'quick' else 10
     out = [dict(shape=list(p)) for N in range(1, top + 1) for p in ref.partitions(N)]
+    if tier == 'quick':
+        # beyond the exhaustive range: every shape of N = 9, 10 with at most 100 tableaux (wide first rows, hooks, near two-row shapes) and N = 11, 12 with at most 60
+        for N, cap in ((9, 100), (10, 100), (11, 60), (12, 60)):
+            out += [dict(shape=list(p)) for p in ref.partitions(N) if ref.hook_number(p) <= cap]
     if tier == 'thorough':
         # a sample of shapes with N = 11, 12 (the large middle shapes have > 5000 tableaux; keep hooks, two-row/column and near-rectangles)
         for N in (11, 12):
